@@ -285,7 +285,7 @@ def main():
                                'subscripts/in/calls/%/f-strings into helpers, proxy strings with '
                                'concrete length and z3 Int characters, fork by re-execution, z3 5.1'},
             {'name': 'E2-regex', 'path': 'vf/symrx.py (to_z3_regex) vf/e2.py',
-             'serves_properties': [p for p in ('C03', 'C04', 'C09', 'C18') if p in CLAIMED],
+             'serves_properties': [p for p in ('C09', 'C18') if p in CLAIMED],
              'kind_free_text': 'z3 regular-expression theory: language equality of live patterns with '
                                'reference regexes for strings of every length'},
         ],
